@@ -225,7 +225,7 @@ theorem Inv.step {s s' : MuxSt} {ev : Ev} (hi : Inv s) (hg : ev.guard = true)
         by_cases hcid : id = id'
         · subst hcid; rw [AList.lookup_insert_self] at hl
           cases hl
-          exact ⟨{ id := id, base := countFor id s.seen }, by simp, rfl⟩
+          exact ⟨{ id := id, base := countFor id s.seen, closed := s.cfg.lateClosed && s.closed }, by simp, rfl⟩
         · rw [AList.lookup_insert_other _ _ _ _ hcid] at hl
           obtain ⟨c, hc, hcid'⟩ := hi.map id' h' hl
           refine ⟨c, ?_, hcid'⟩
